@@ -285,6 +285,56 @@ pub fn run(p: &Params, rep: &mut Report) {
     rep.count("structured_escape_texts", structured);
     rep.sample(|| "structured: pairs/triples of escape fragments such as \\u{ACG}\\u0041, and \\u{dddddd} for all digit strings up to the stated length".to_string());
 
+    // (3c) long strings: mixtures of 1-, 6-, 7-, 8- and 9-byte tokens so that every buffer alignment occurs;
+    //      and the sweep "k plain characters followed by one supplementary-plane character" for k = 0..=300
+    if p.shard < 4 {
+        let big = [0x10000u32, 0x2FFFF, 0x1F600, 0x20000][p.shard as usize];
+        let fillers: [u32; 4] = [0x61, 0xE9, 0x0A, 0x5C];
+        for k in 0..=300usize {
+            for &f in &fillers {
+                let mut w: Vec<u32> = vec![f; k];
+                w.push(big);
+                w.push(0x62);
+                check_print(rep, &w, seed);
+            }
+        }
+        rep.evals(301 * 4);
+        rep.inc("long_string_alignment_sweeps");
+    }
+    {
+        let mut rng2 = p.rng(88);
+        let nl = p.size(300, 6000);
+        for _ in 0..nl {
+            let len = 60 + rng2.usize(400);
+            let w: Vec<u32> = (0..len)
+                .map(|_| match rng2.below(10) {
+                    0..=4 => 0x20 + rng2.below(0x5F) as u32,
+                    5 => rng2.below(0x20) as u32,
+                    6 => 0x80 + rng2.below(0xFF80) as u32,
+                    7 | 8 => 0x10000 + rng2.below(0x20000) as u32,
+                    _ => *rng2.pick(&[0x22u32, 0x5C, 0x7F, 0xFFFF, 0x10000, 0x2FFFF]),
+                })
+                .collect();
+            check_print(rep, &w, seed);
+            rep.eval(Some(&format!("L{}", fnv(&show_str(&w)))));
+        }
+        rep.count("long_strings_printed", nl);
+        // non-ASCII characters before the first backslash of a text
+        let (valid, malformed) = escape_fragments();
+        for (i, fr) in valid.iter().chain(malformed.iter()).enumerate() {
+            if i as u64 % p.nshards != p.shard {
+                continue;
+            }
+            for pre in ["\u{e9}", "\u{4e2d}\u{6587}", "a\u{1F600}b", "\u{e9}\u{e9}\u{e9}"] {
+                let t: Vec<char> = format!("{}{}", pre, fr).chars().collect();
+                check_parse(rep, &t, seed);
+                let t2: Vec<char> = format!("{}{}{}", pre, fr, valid[i % valid.len()]).chars().collect();
+                check_parse(rep, &t2, seed);
+                rep.evals(2);
+            }
+        }
+    }
+
     // (4) random long texts and strings
     let mut rng = p.rng(8);
     let nr = p.size(20_000, 400_000);
